@@ -234,19 +234,19 @@ pub fn pke_secret_bytes(ver: Ver, seed: &KeySeed) -> Vec<u8> {
 }
 
 pub fn secret_key<B: Backend>(seed: &KeySeed) -> SecretKeyOf<B> {
-    key_from_bytes::<V<B>, Secret>(&secret_bytes(B::VER, seed)).expect("generated secret key must decode")
+    key_from_bytes::<V<B>, Secret>(&secret_bytes(B::VER, seed)).unwrap_or_else(|e| library_refused("a valid generated secret key", &e))
 }
 
 pub fn local_key<B: Backend>(seed: &KeySeed) -> LocalKeyOf<B> {
-    key_from_bytes::<V<B>, Local>(&local_key_bytes(seed)).expect("32 bytes are a local key")
+    key_from_bytes::<V<B>, Local>(&local_key_bytes(seed)).unwrap_or_else(|e| library_refused("32 bytes offered as a local key", &e))
 }
 
 pub fn pke_pair<B: Backend>(seed: &KeySeed) -> (PkeSecretOf<B>, PkePublicOf<B>, Vec<u8>, Vec<u8>) {
     let sk = pke_secret_bytes(B::VER, seed);
     let pk = public_bytes(B::VER, &sk);
     (
-        key_from_bytes::<V<B>, PkeSecret>(&sk).expect("generated pke secret must decode"),
-        key_from_bytes::<V<B>, PkePublic>(&pk).expect("generated pke public must decode"),
+        key_from_bytes::<V<B>, PkeSecret>(&sk).unwrap_or_else(|e| library_refused("a valid generated key-sealing secret key", &e)),
+        key_from_bytes::<V<B>, PkePublic>(&pk).unwrap_or_else(|e| library_refused("a valid generated key-sealing public key", &e)),
         sk,
         pk,
     )
@@ -260,8 +260,8 @@ pub fn pw_params<B: Backend>(p: &PwParams) -> <V<B> as PwWrapVersion>::Params {
     blob.extend_from_slice(&p.bytes());
     blob.extend(std::iter::repeat(0u8).take(model::pbkw_nonce_len(ver) + model::pbkw_tag_len(ver)));
     let s = format!("{}.local-pw.{}", ver.k(), b64_encode(&blob));
-    let w: PasswordWrappedKey<V<B>, Local> = s.parse().expect("params carrier parses");
-    w.params().expect("params carrier has params")
+    let w: PasswordWrappedKey<V<B>, Local> = s.parse().unwrap_or_else(|e| library_refused("a well-formed password-wrap blob (parameter carrier)", &e));
+    w.params().unwrap_or_else(|e| library_refused("params() of a well-formed password-wrap blob", &e))
 }
 
 /// cheapest parameters each version accepts everywhere
@@ -401,4 +401,11 @@ impl<VV: SealingVersion<Public>> Aliases<VV> for Public {
             (_, _, false) => "unseal",
         }
     }
+}
+
+/// The library refused an input that is valid by construction (a generated key, a well-formed blob).
+/// Raised as a panic with a recognisable prefix; the engine reports it as a violation of the
+/// property being checked (the library, not the harness, is at fault), see `engine::classify_panic`.
+pub fn library_refused<T>(what: &str, e: &PasetoError) -> T {
+    panic!("LIBRARY-REFUSED-VALID-INPUT: {what} was rejected: {e}")
 }
